@@ -127,25 +127,25 @@ PROPS = {
         explanation="loop variant + step clauses + frames() lemmas.",
     ),
     "C07": dict(
-        specs=["packer", "avp", "avp_types", "avp_grouped", "base", "node_model", "peer", "helpers", "c20", "node", "c13"],
+        specs=["packer", "avp", "avp_types", "avp_grouped", "base", "node_model", "peer", "helpers", "c20", "node", "c13", "c06"],
         ground=[], replay=replay.generic,
         trusted_base=["queue model (ghost log g_put = every message ever queued on the connection)"],
         assumptions=COMMON_ASSUME + [
             "handlers are serialized (S5): interleavings between application threads and the read thread are not decided",
             "user request/answer handlers may raise anything but transmit nothing synchronously (behavioural contract of "
             "Application.receive_request / receive_answer); application answers are covered by C09",
-            "assumed contracts: Node.receive_cer / receive_cea (exactly one mirroring CEA, respectively nothing sent), "
-            "PeerStats.* bookkeeping, validate_message_avps frame"],
+            "Node.receive_cer / receive_cea are used through their contracts verified under C06 (their callee-side assumptions: class of a code-257 message, list attributes set, int vendor-specific ids, election branch only witnessed)",
+            "assumed contracts: PeerStats.* bookkeeping, validate_message_avps frame"],
         level_text="Deductive proof, for every table state and every message, of the per-call contract of the connection "
                    "message handler Node._receive_message against the ghost log of queued messages: at most one message is "
                    "queued per call, only when the received message is a request, and it mirrors the request's command code, "
                    "application id, hop-by-hop and end-to-end identifiers with R cleared; nothing is queued on any other "
                    "connection (frame); the DWR/DPR handlers queue exactly one 2001 answer; send_message queues exactly once.",
-        level_note="Sequential contracts (handlers serialized). Assumed: CE handler contracts, user-handler contract.",
+        level_note="Sequential contracts (handlers serialized). Assumed: user-handler contract.",
         explanation="ghost answer-log contracts on _receive_message, send_message and the base-protocol handlers.",
     ),
     "C17": dict(
-        specs=["packer", "avp", "avp_types", "avp_grouped", "base", "node_model", "peer", "helpers", "c20", "node"],
+        specs=["packer", "avp", "avp_types", "avp_grouped", "base", "node_model", "peer", "helpers", "c20", "node", "c13", "c06"],
         ground=[], replay=replay.generic,
         trusted_base=["collections.deque(maxlen=N).append model (drops the oldest element when full)"],
         assumptions=COMMON_ASSUME + [
@@ -163,7 +163,7 @@ PROPS = {
         explanation="window lemma through contracts with a universally quantified ghost origin.",
     ),
     "C08": dict(
-        specs=["packer", "avp", "avp_types", "avp_grouped", "base", "node_model", "peer", "helpers", "c20", "node", "c08"],
+        specs=["packer", "avp", "avp_types", "avp_grouped", "base", "node_model", "peer", "helpers", "c20", "node", "c08", "c13", "c06"],
         ground=[ground.c08_failed_avp], replay=replay.generic,
         trusted_base=[],
         assumptions=COMMON_ASSUME + [
@@ -172,7 +172,8 @@ PROPS = {
             "instantiated for the visited key",
             "table well-formedness (ground C03.T1): every avp_def row has a dictionary entry",
             "the route-table construction by add_peer/add_application (realm -> app -> peers, _default) is NOT under contract yet",
-            "assumed contracts: Node.receive_cer / receive_cea, user-handler contract, PeerStats.*"],
+            "Node.receive_cer / receive_cea are used through their contracts verified under C06 (their callee-side assumptions: class of a code-257 message, list attributes set, int vendor-specific ids, election branch only witnessed)",
+            "assumed contracts: user-handler contract, PeerStats.*"],
         level_text="Deductive proof of the request-dispatch case split on the real code: validate_message_avps returns exactly one "
                    "entry per required-and-unset row, in table order, naming its (code, vendor) (loop invariant over the class' "
                    "table); _receive_message answers 5005 itself and delivers nothing when that list is non-empty; "
@@ -251,7 +252,7 @@ PROPS = {
             "NOT DECIDED: the readiness clauses (an application reports ready whenever one of its configured peers has a ready "
             "connection / not ready once none has a connection): they need invariants over three nested table loops; only "
             "'_flag_connection_as_ready never clears a ready flag' is proved",
-            "receive_cer / receive_cea / _connect_to_peer are used through assumed contracts (C06/C12)"],
+            "receive_cer / receive_cea are verified under C06 and _connect_to_peer under C19; C13 does not depend on them"],
         level_text="Deductive proof of the table effects of every mutator for ALL table states: remove_peer_connection / "
                    "close_connection_socket leave the connection in none of connections, peer_sockets, socket_peers, "
                    "_half_ready_connections, drop its pending-answer table, close a registered socket and stop both workers, "
@@ -283,7 +284,7 @@ PROPS = {
         explanation="step contract of the reconnect loop + DPR handler contract.",
     ),
     "C14": dict(
-        specs=["packer", "avp", "avp_types", "avp_grouped", "base", "node_model", "peer", "helpers", "c20", "family", "node", "c13", "c14", "c15"],
+        specs=["packer", "avp", "avp_types", "avp_grouped", "base", "node_model", "peer", "helpers", "c20", "family", "node", "c13", "c14", "c15", "c06"],
         ground=[], replay=replay.generic,
         trusted_base=["queue / thread models: Queue.put/get raise only queue.Full / queue.Empty; Thread.start may raise RuntimeError"],
         assumptions=COMMON_ASSUME + [
@@ -348,7 +349,7 @@ PROPS = {
         explanation="contracts of stop(), the stopping guards and the flush branch.",
     ),
     "C19": dict(
-        specs=["packer", "avp", "avp_types", "avp_grouped", "base", "node_model", "peer", "helpers", "c20", "family", "node", "c13", "c19"],
+        specs=["packer", "avp", "avp_types", "avp_grouped", "base", "node_model", "peer", "helpers", "c20", "family", "node", "c13", "c19", "c06"],
         ground=[], replay=replay.generic,
         trusted_base=["socket / thread environment models; PeerConnection.__init__ starts two workers (assumed constructor contract)"],
         assumptions=COMMON_ASSUME + [
@@ -373,10 +374,14 @@ PROPS = {
         ground=[], replay=replay.generic,
         trusted_base=["time.time() non-decreasing"],
         assumptions=COMMON_ASSUME + [
-            "NOT DECIDED: the four outcome cases of Node.receive_cer (2001 with the node's identity/ready, 3010 + closing for an "
-            "unknown peer, 5010 without becoming ready, relay) and of receive_cea (ready only on 2001, closed otherwise): these "
-            "handlers use set algebra and comprehensions over typed attributes that are outside the verified subset; they enter "
-            "the other proofs only through assumed contracts",
+            "receive_cer: when another connection with origin_host equal to the CER's host exists (RFC 6733 election), only "
+            "'4003 => such a connection exists and this one is CLOSING' is stated; the 2001/5010 cases are stated for the "
+            "no-rival situation (the election-won branch may close this very connection); the order of list(set) is unspecified",
+            "Node.auth_application_ids / acct_application_ids (set comprehension over self.applications) are abstracted by an "
+            "uninterpreted function of the application list and the id/flag fields; set(), &, list(set) use z3 array "
+            "combinators (obligations with set algebra are discharged by the two z3 versions only)",
+            "the values() view of self.connections is an arbitrary sequence of connections (membership not stated); "
+            "[i[1] for i in message.host_ip_address] is a list of arbitrary strings of the same length",
             "NOT DECIDED: timing of the I/O loop; behaviour after a second CER on one connection (unspecified by the property)"],
         category="proof",
         level_text="Deductive proof of the gate and of the timeout/readiness guards on the real code: PeerConnection's dispatcher "
@@ -385,9 +390,17 @@ PROPS = {
                    "while CONNECTING/CLOSING/CLOSED, and at most once; an outbound connection queues exactly one CER with fresh "
                    "non-zero identifiers (send_cer); a CONNECTED connection whose last read is older than the CER/CEA timeout "
                    "(per-peer value over node value) is closed with FAILED_CONNECT_CE and left alone otherwise (_check_timers); "
-                   "route_request/route_answer return only READY/READY_WAITING_DWA connections (C09/C10 contracts).",
-        level_note="The capabilities-exchange outcome cases themselves are not decided (see assumptions).",
-        explanation="gate contract with a ghost log of handler invocations; timer and routing guards.",
+                   "route_request/route_answer return only READY/READY_WAITING_DWA connections (C09/C10 contracts). "
+                   "Outcome cases on the real receive_cer / receive_cea for all messages and table states: exactly one CEA that "
+                   "mirrors the CER and carries the node's origin host/realm, addresses, vendor id, product name, supported "
+                   "vendors and auth/acct application ids; 3010 and CLOSING exactly when the origin host is not a configured "
+                   "peer; for a known peer without rival connection 5010 with unchanged state when no application is shared and "
+                   "it is no relay, else 2001, READY, host_identity set and exactly the shared ids recorded; READY is entered "
+                   "only with 2001; an inbound CEA other than 2001 closes the connection with reason CER_REJECTED and leaves "
+                   "it in no table, a 2001 CEA makes it READY with the shared ids.",
+        level_note="Per-call contracts; the election branch of receive_cer is only witnessed (see assumptions).",
+        explanation="gate contract with a ghost log of handler invocations; timer and routing guards; outcome-case contracts "
+                    "of receive_cer/receive_cea over a set model (characteristic arrays) with a fold lemma for vendor-specific ids.",
     ),
     "C03": dict(
         specs=["packer", "avp", "avp_types", "avp_grouped", "base", "node_model", "family", "node", "c08"],
